@@ -28,7 +28,8 @@ MatOf(id) == IF K = 2 THEN Mat2[id] ELSE Mat3[id]
 
 GapsQuick == {<<0>>, <<-1>>, <<-3>>, <<0, 0>>, <<-2, -1>>, <<-1, -2>>, <<-3, 0>>}
 GapsFull  == {<<0>>, <<-1>>, <<-2>>, <<-3>>, <<0, 0>>, <<-2, -1>>, <<-1, -2>>, <<-3, 0>>, <<0, -1>>, <<-1, -1>>}
-GapsTiny  == {<<-1>>, <<-2, -1>>}
+GapsLen4  == {<<0>>, <<-1>>, <<-2, -1>>, <<-1, -2>>}
+GapsMid   == {<<0>>, <<-2>>, <<-2, -1>>, <<-1, -2>>}
 
 Seqs == UNION {[1..len -> 0..(K - 1)] : len \in 0..MaxLen}
 Modes == {"global", "semi", "local"}
